@@ -15,7 +15,7 @@ def doubleStr : List Stmt → Bool
 mutual
 /-- the region on which `DocTrans` is erase-preserving: no function body starts with two string expressions
     (deleting the docstring would promote the second one), and — without type annotations — no bare
-    declaration `x: T` (it is turned into `x = None`) -/
+    declaration `x: T` (it is turned into the assignment `x = '```(None)```'`) -/
 def okStmt (ta : Bool) : Stmt → Bool
   | .fn false _ _ b _ _ => !doubleStr b && okList ta b
   | .fn true _ _ b _ _ => okList ta b
@@ -87,7 +87,7 @@ theorem eraseBodyList_setDoc (b b2 : List Stmt) (nd : Option String)
                 rw [he2, eraseBodyList_cons]
                 simp [isStr]
           | some d =>
-            simp only [setDoc, docstringOf]
+            simp only [setDoc]
             rw [eraseBodyList_cons, eraseBodyList_cons]
             simp [isStr, he2]
         | _ => simp [isStr] at hs1
